@@ -50,6 +50,8 @@ Definition k_v : bytes := Eval vm_compute in str "v".
 Definition k_value : bytes := Eval vm_compute in str "value".
 Definition k_verificationVector : bytes := Eval vm_compute in str "verificationVector".
 Definition k_verification_vector : bytes := Eval vm_compute in str "verification_vector".
+Definition k_u : bytes := Eval vm_compute in str "u".
+Definition k_w : bytes := Eval vm_compute in str "w".
 
 (* ---------------------------------------------------------------- schemas *)
 
@@ -341,6 +343,12 @@ Definition ecdsa_rules (c : curve) (x : item) : list rule :=
   [ (28, negb (scalar_is_zero (fld k_r x)) && negb (scalar_is_zero (fld k_s x)));
     (29, is_null v || ((0 <=? int_of v)%Z && (int_of v <=? 3)%Z)) ].
 
+(* dkls23.NewPartialSignature {r: point, u, w: scalars}: u, w non-zero (r not the identity is
+   an element property left to C13) *)
+Definition dklspartial_rules (c : curve) (x : item) : list rule :=
+  point_rules c (fld k_r x) ++ scalar_rules c (fld k_u x) ++ scalar_rules c (fld k_w x) ++
+  [ (34, negb (scalar_is_zero (fld k_u x)) && negb (scalar_is_zero (fld k_w x))) ].
+
 (* num.NatPlus: non-zero *)
 Definition natplus_rules (x : item) : list rule :=
   [ (32, existsb (fun b => negb (b =? 0)) (bytes_of (fld k_natBytes (fld k_natPlus x)))) ].
@@ -351,7 +359,7 @@ Inductive ty : Type :=
 | TThreshold | TUnanimity | TCnf | THierarchical | TBoolexpr
 | TMsp (c : curve) | TKwShare (c : curve) | TLifted (c : curve) | TFeldmanVV (c : curve)
 | TBasePublic (c : curve) | TBaseShard (c : curve) (sharematch : bool)
-| TEcdsaSig (c : curve)
+| TEcdsaSig (c : curve) | TDklsPartial (c : curve)
 | TMatrix (c : curve) | TSqMatrix (c : curve) | TMvMatrix (c : curve)
 | TNat | TInt | TNatPlus | TScalar (c : curve) | TPoint (c : curve)
 | TGeneric.
@@ -389,6 +397,7 @@ Definition schema_of (t : ty) : schema :=
   | TBasePublic _ => s_basepublic
   | TBaseShard _ _ => SStruct [ (k_share, (false, s_share s_scalar)); (k_publicMaterial, (false, s_basepublic)) ]
   | TEcdsaSig _ => SStruct [ (k_r, (false, s_scalar)); (k_s, (false, s_scalar)); (k_v, (false, SNullOr SInt)) ]
+  | TDklsPartial _ => SStruct [ (k_r, (false, s_point)); (k_u, (false, s_scalar)); (k_w, (false, s_scalar)) ]
   | TMatrix _ => s_matrix s_scalar
   | TSqMatrix _ => s_sqmatrix s_scalar
   | TMvMatrix _ => s_matrix s_point
@@ -414,6 +423,7 @@ Definition rules_of (t : ty) (x : item) : list rule :=
   | TBasePublic c => basepublic_rules c x
   | TBaseShard c m => baseshard_rules c m x
   | TEcdsaSig c => ecdsa_rules c x
+  | TDklsPartial c => dklspartial_rules c x
   | TMatrix c => matrix_rules (scalar_rules c) x
   | TSqMatrix c => sqmatrix_rules (scalar_rules c) x
   | TMvMatrix c => matrix_rules (point_rules c) x
